@@ -538,7 +538,7 @@ func newRand(seed int64) *rand.Rand { return rand.New(rand.NewSource(seed)) }
 
 func TestVerifRace_C16_swap(t *testing.T) {
 	vh.Run(t, vh.Spec{Prop: "C16", Unit: "swap", Quick: 40, Thorough: 1500, CostMs: 110, WallS: 300,
-		Rule:    "FullRT with a fake crawler; 5-12 generations with pairwise DISJOINT peer sets (each larger than K: 30-500 peers, every peer its own /16, or overfull groups with a limit) are swapped in through TriggerRefresh while 4 reader goroutines call GetClosestPeers on 12 fixed keys in real parallelism under the race detector; every result must consist of peers of one generation, be the brute-force answer for that generation, and the generation seen by one reader never goes back; non-trivial = readers observed at least 3 different generations; distinct by (K, limit, sizes, observed generation sequence)",
+		Rule:    "FullRT with a fake crawler; 5-12 generations with pairwise DISJOINT peer sets (each larger than K: 30-500 peers, every peer its own /16, or overfull groups with a limit) (every second case: 1-3 members of the first generation are the configured bootstrap peers, their ids among the keys) are swapped in through TriggerRefresh while 4 reader goroutines call GetClosestPeers on 12 fixed keys in real parallelism under the race detector; every result must consist of peers of one generation, be the brute-force answer for that generation, and the generation seen by one reader never goes back; non-trivial = readers observed at least 3 different generations; distinct by (K, limit, sizes, observed generation sequence)",
 		Clauses: []string{"swap-single-generation", "swap-correct-for-generation", "swap-monotonic", "swap-final-table"}},
 		func(c *vh.Case) {
 			r := c.R
@@ -572,6 +572,23 @@ func TestVerifRace_C16_swap(t *testing.T) {
 			for i := range keys {
 				keys[i] = fmt.Sprintf("/verif/swap-%d-%d", c.Idx, r.Int63())
 			}
+			// every second case: 1-3 members of the FIRST generation are the configured bootstrap peers (found by the
+			// first crawl, gone in every later one like the rest of their generation), and their ids are among the keys
+			// asked, so that a bootstrap peer that stays in the table is the nearest peer of a key
+			nBoot := 0
+			if c.Idx%2 == 1 {
+				for _, p := range views[0].gen.Peers {
+					if nBoot >= 1+c.Idx%3 {
+						break
+					}
+					if views[0].isMember[p.ID] {
+						cfg.Bootstrap = append(cfg.Bootstrap, peer.AddrInfo{ID: p.ID, Addrs: p.Addrs})
+						keys = append(keys, string(p.ID))
+						nBoot++
+					}
+				}
+			}
+			c.Set("bootstrap_peers_in_first_generation", nBoot)
 			want := make([]map[string][]peer.ID, nGen)
 			for g, v := range views {
 				want[g] = map[string][]peer.ID{}
